@@ -24,6 +24,12 @@ type structType struct {
 	fieldInfos []structFieldInfo // 偏移量对应的字段信息内容
 }
 
+// structTypeKey 缓存 structType 的 key, 同一个结构体不同的 tag 解析出的规则不同
+type structTypeKey struct {
+	ty  reflect.Type
+	tag string
+}
+
 // structFieldInfo 结构体字段信息
 type structFieldInfo struct {
 	export     bool   // 是否可导出
@@ -231,7 +237,8 @@ func (v *VStruct) validate(structName string, value reflect.Value, isValidGather
 
 // getCacheStructType 获取缓存中的 reflect.Type
 func (v *VStruct) getCacheStructType(ty reflect.Type) structType {
-	if obj, ok := cacheStructType.Load(ty); ok {
+	cacheKey := structTypeKey{ty: ty, tag: v.targetTag}
+	if obj, ok := cacheStructType.Load(cacheKey); ok {
 		return obj.(structType)
 	}
 
@@ -251,7 +258,7 @@ func (v *VStruct) getCacheStructType(ty reflect.Type) structType {
 		}
 		obj.fieldInfos[fieldNum] = info
 	}
-	cacheStructType.Store(ty, obj)
+	cacheStructType.Store(cacheKey, obj)
 	return obj
 }
 
